@@ -206,6 +206,10 @@ func compressWith(kind string, b []byte) ([]byte, error) {
 
 // plainOf: independent decompression (Go's gzip / bzip2 readers, the xz tool) of what the harness compressed
 func plainOf(b []byte) []byte {
+	// a stream that reads as a tar as it stands is one, whatever its first bytes (an entry name) look like
+	if _, err := tar.NewReader(bytes.NewReader(b)).Next(); err == nil && len(b) >= 512 && (b[0] == 0x1f || b[0] == 'B' || b[0] == 0xfd) {
+		return b
+	}
 	switch {
 	case len(b) > 2 && b[0] == 0x1f && b[1] == 0x8b:
 		if zr, err := gzip.NewReader(bytes.NewReader(b)); err == nil {
@@ -451,9 +455,23 @@ func unpackEngine(c *Ctx) {
 		"unpack tar " + lossless + " - none " + RawHdr{Name: "h", Typeflag: '1', Link: "a"}.tok(),
 		"unpack tar " + lossless + " - none " + RawHdr{Name: "odd", Typeflag: 'Z'}.tok(),
 		"unpack tar " + lossless + " - none " + RawHdr{Name: "a/..", Typeflag: '5'}.tok() + ";" + RawHdr{Name: "f", Typeflag: '0'}.tok(),
+		// plain tars whose first entry's name begins like a compression magic number (the first bytes of the stream)
+		"unpack tar " + lossless + " - none " + RawHdr{Name: "BZhello.txt", Typeflag: '0', Mode: 0644}.tok(),
+		"unpack tar " + lossless + " - none " + RawHdr{Name: "BZh91AY&SY", Typeflag: '0', Mode: 0644}.tok() + ";" + RawHdr{Name: "b", Typeflag: '0', Mode: 0644}.tok(),
+		"unpack tar " + lossless + " gnu none " + RawHdr{Name: "\x1f\x8b\x08name", Typeflag: '0', Mode: 0644}.tok(),
+		"unpack tar " + lossless + " - none " + RawHdr{Name: "\xfd7zXZ", Typeflag: '5', Mode: 0755}.tok() + ";" + RawHdr{Name: "\xfd7zXZ/f", Typeflag: '0', Mode: 0644}.tok(),
+		"unpack tar " + lossless + " pax none " + RawHdr{Name: "BZh9", Typeflag: '2', Link: "x", Mode: 0777}.tok(),
 	}
 	for _, op := range corpus {
 		c.Emit2(op, unpackExec)
+	}
+	// the magic-number names are well-formed archives: they must be accepted (C05), not merely agree with the model
+	for _, op := range corpus {
+		if strings.Contains(op, hx("BZh")) || strings.Contains(op, hx("\x1f\x8b\x08")) || strings.Contains(op, hx("\xfd7zXZ")) {
+			if parts := strings.SplitN(unpackExec(c, op), "\x00", 2); len(parts) == 2 && !strings.HasPrefix(parts[1], "ok ") {
+				c.PropFail("valid-archive-refused", "an uncompressed tar whose first entry name begins like a compression magic number was not accepted: "+parts[1], op)
+			}
+		}
 	}
 	// the "goes up" gate of the unpacker (C18): an entry is refused as leaving the base iff its *cleaned* name is ".."
 	// or begins with "../" — not when it merely begins with two dots, and also when the raw spelling hides it
